@@ -46,6 +46,13 @@ type govProposal struct {
 	StrategyExpression     string               `json:"strategy_expression"`
 }
 
+// specialProposal: which proposals need a super administrator's vote - role and strategy proposals, and every
+// freeze, activation or logout (transcribed from the declared lists SpecialProposalProposalType /
+// SpecialProposalEventType; the flag recorded in the proposal is what the code computed and is not trusted).
+func specialProposal(p *govProposal) bool {
+	return p.Typ == "role_mgr" || p.Typ == "proposal_strategy_mgr" || p.EventType == "freeze" || p.EventType == "activate" || p.EventType == "logout"
+}
+
 func evalStrategy(expr string, a, r, t uint64) (bool, error) {
 	e, err := govaluate.NewEvaluableExpression(expr)
 	if err != nil {
@@ -301,7 +308,7 @@ func (g *g15) checkConclusion(p *govProposal, availNow int) {
 		if !ok1 && !ok2 && !ok3 {
 			g.viol("approved-without-majority", fmt.Sprintf("proposal %s was approved by the tally with %d approvals / %d rejections of distinct eligible admins, but its strategy %q is false for t=%d (recorded total), t=%d (recorded available) and t=%d (available now)", p.Id, a, r, p.StrategyExpression, p.InitialElectorateNum, p.AvailableElectorateNum, availNow))
 		}
-		if p.IsSpecial {
+		if p.IsSpecial || specialProposal(p) {
 			super := false
 			for v := range p.BallotMap {
 				if weight[v] == 2 {
@@ -332,7 +339,7 @@ func (g *g15) checkConclusion(p *govProposal, availNow int) {
 		if r1 && r2 {
 			g.viol("rejected-while-approval-reachable", fmt.Sprintf("proposal %s was rejected by the tally with %d approvals / %d rejections although approval was still reachable (%d available admins, %d of the electorate have not voted; strategy %q, t=%d)", p.Id, a, r, availNow, notVoted, p.StrategyExpression, p.InitialElectorateNum))
 		}
-		if p.IsSpecial {
+		if p.IsSpecial || specialProposal(p) {
 			super := false
 			for v := range p.BallotMap {
 				if weight[v] == 2 {
@@ -353,6 +360,10 @@ func gov15Workload(args []string) int {
 	for id := a.From; id < a.To; id++ {
 		rng := vlog.CaseRand(a.Seed, "gov15", id)
 		opts := harness.Options{NumAdmins: 4 + rng.Intn(4), Strategy: exprs[rng.Intn(len(exprs))], NoAudit: rng.Intn(2) == 0}
+		if rng.Intn(3) == 0 {
+			// one super administrator, everybody else ordinary: special proposals hang on that one vote
+			opts.OrdinaryAdmins = opts.NumAdmins - 1
+		}
 		w.CaseStart(id, map[string]interface{}{"opts": opts})
 		guard(w, "gov15", func() { gov15Case(w, a, id, rng, opts) })
 	}
@@ -551,6 +562,14 @@ func gov15Case(w *vlog.W, a *wargs, id int, rng *rand.Rand, opts harness.Options
 			switch y := rng.Intn(10); {
 			case y < 7:
 				voter = g.admins[rng.Intn(len(g.admins))]
+				if opts.OrdinaryAdmins > 0 && rng.Intn(5) != 0 {
+					// worlds with one super administrator: the ordinary ones vote first, most of the time - a special
+					// proposal then has its majority long before the vote it has to wait for
+					if p, _ := g.proposal(pid); p != nil && specialProposal(p) {
+						voter = harness.AdminKey(1 + rng.Intn(opts.NumAdmins-1))
+						w.Count("votes_by_ordinary_admins_on_special_proposals", 1)
+					}
+				}
 				// an admin who is frozen with a pending activation / logout is the interesting voter
 				for _, k := range g.admins {
 					if st, _ := g.roleStatus(k.Addr.String()); (st == "activating" || st == "logouting" && g.stable[k.Addr.String()] == "frozen") && rng.Intn(3) != 0 {
